@@ -1,6 +1,6 @@
 (* Property C15 — a published object is retrieved byte-for-byte, newest version, completing once.
    Only theorem statements closed by `exact`, each followed by Print Assumptions. *)
-From Object Require Import ObjSeg ObjSegProofs Defects Fetch FetchStream FetchSafe FetchLive FetchBudget FetchCheck.
+From Object Require Import ObjSeg ObjSegProofs Store Defects Fetch FetchStream FetchSafe FetchLive FetchBudget FetchCheck.
 Open Scope nat_scope.
 
 Definition S8000 : nat := N.to_nat pSegmentSize.
@@ -33,6 +33,29 @@ Theorem produce_alias_refuted_before_fix :
   exists nm ver spare, produce_ret_prefix nm ver spare <> nm ++ [ver_comp ver].
 Proof. exact produce_alias_refuted. Qed.
 Print Assumptions produce_alias_refuted_before_fix.
+
+(* further refutations of the pinned tree's behaviour (all repaired in /repo except the scan cap, a known finding) *)
+Theorem bolt_prefix_refuted_before_fix :
+  b_get_prefix_old boltIterCap d2_db [mkc 8%N [97%N]] = Some [3%N] /\ b_get boltIterCap d2_db [mkc 8%N [97%N]] true = Some [5%N].
+Proof. exact bolt_prefix_refuted. Qed.
+Print Assumptions bolt_prefix_refuted_before_fix.
+
+Theorem docheck_loop_refuted_before_fix : forall fuel,
+  scan_old fuel (fun s => s =? 1) (fun s => s =? 0) [0; 1] 0 None = OutOfFuel.
+Proof. exact docheck_loop_refuted. Qed.
+Print Assumptions docheck_loop_refuted_before_fix.
+
+Theorem consumer_alias_refuted_before_fix :
+  queued_names_old 1 [mkc 8%N [97%N]] [1;2;3]%N <> map (fun s => [mkc 8%N [97%N]] ++ [seg_comp s]) [1;2;3]%N.
+Proof. exact consumer_alias_refuted. Qed.
+Print Assumptions consumer_alias_refuted_before_fix.
+
+(* known finding (still in the code): the bolt prefix scan stops after cap-1 keys *)
+Theorem bolt_scan_cap_refuted :
+  let db := fold_right (fun v d => b_put (name_inner [mkc 8%N [97%N]; ver_comp v]) (b_value v [v]) d) [] [1;2;3;4]%N in
+  b_get 4 db [mkc 8%N [97%N]] true = Some [3%N].
+Proof. exact Defects.bolt_scan_cap_refuted. Qed.
+Print Assumptions bolt_scan_cap_refuted.
 
 (* consume_any_order — the consumer state machine (Consume / consumeObject / fetchMetadata / rrSegFetcher / Content /
    ExpressR) under EVERY schedule of run-loop iterations, Consume calls and engine results:
